@@ -417,6 +417,18 @@ def _section(args):
         return ('bad', 'unparse then parse of %r gave %r - the section round trip theorem predicts the same element' % (x, r), text)
     return ('ok', None, text)
 
+# ---- instances of C05/C06_crossheading_round_trip, run on the implementation ----
+def _crossheading(args):
+    uri, prefix, t = args
+    x = ['E', 'crossHeading', [['eId', (prefix + '__' if prefix else '') + 'crossHeading_1']], [['T', t]]]
+    text = impl.unparse_sx(x)
+    if not isinstance(text, str):
+        return ('bad', 'unparse of a crossheading raised %r' % (text,), None)
+    r = impl.e2e_sx((uri, 'hier_element', prefix, text))
+    if r != x:
+        return ('bad', 'unparse then parse of %r gave %r - the crossheading round trip theorem predicts the same element' % (x, r), text)
+    return ('ok', None, text)
+
 WITNESS_ATTR = [('p-title', ' a'), ('p-title', 'a\tb'), ('abbr-title', 'a ')]
 
 # ---- xslstr stage ----
@@ -571,6 +583,10 @@ def search(ctx, budget):
         ctx.evaluations += 1; ctx.count('section_theorem_' + r[0])
         if r[0] == 'bad':
             ctx.failures.append(({'stage': 'section', 'args': list(j), 'unparsed': r[2]}, r[1]))
+    for j, r in zip(pj, impl.pmap(_crossheading, pj, chunk=16)):
+        ctx.evaluations += 1; ctx.count('crossheading_theorem_' + r[0])
+        if r[0] == 'bad':
+            ctx.failures.append(({'stage': 'crossheading', 'uri': j[0], 'prefix': j[1], 'string': j[2], 'unparsed': r[2]}, r[1]))
     for j, r in zip(pj, impl.pmap(_para, pj, chunk=16)):
         ctx.evaluations += 1; ctx.count('paragraph_theorem_' + r[0])
         if r[0] == 'bad':
@@ -622,6 +638,8 @@ def replay(obj):
         r = _fn((case['position'], case['wrapper'], case['notes'])); print(r[:2]); return 1 if r[0] == 'bad' else 0
     if st == 'paragraph':
         r = _para((case['uri'], case['prefix'], case['string'])); print(r[:2]); return 1 if r[0] == 'bad' else 0
+    if case.get('stage') == 'crossheading':
+        r = _crossheading((case['uri'], case['prefix'], case['string'])); print(r[:2]); return 1 if r[0] == 'bad' else 0
     if case.get('stage') == 'section':
         r = _section(tuple(case['args'])); print(r[:2]); return 1 if r[0] == 'bad' else 0
     if st == 'deep':
@@ -641,7 +659,7 @@ LEVEL_TEXT = ('Partial. Proved on the tables regenerated from akn_text.xsl and a
               '(C06_written_text_parses_as_text); at block level, the line written for a paragraph is dispatched by hier_block_element to rule line - all '
               'keyword blocks fail on it, by a computed FIRST analysis of the regenerated grammar against the stylesheet\'s list '
               '(C06_escaped_first_text_is_a_line); composed: the first text of a paragraph as written is accepted by hier_block_element through rule line and '
-              'becomes a p with text children only, spelling the text (C06_written_first_text_is_paragraph); and the round trip of a paragraph through the WHOLE pipeline model, both directions: for every known FRBR URI, every eId prefix and every text s without tab or line break, without blanks at its ends and of XML-legal characters, convert(unparse(<p eId=prefix__p_1>s</p>)) is that very element - stylesheet model, pre_parse, grammar, to_dict, XML builder, footnote resolution, normalisation, eId generation (C06_paragraph_round_trip; its instances are run on the implementation on every run); the same for the basic hierarchical element - keyword line with num and heading, blank line, indented paragraph - for each of the 34 keywords\' elements, every num without blank, dash or backslash, every such heading and text: whatever heading and text spell, the written text converts back to that very element (C06_section_round_trip, and C06_section_round_trip_no_heading for the element without a heading; instances on every run). The string '
+              'becomes a p with text children only, spelling the text (C06_written_first_text_is_paragraph); and the round trip of a paragraph through the WHOLE pipeline model, both directions: for every known FRBR URI, every eId prefix and every text s without tab or line break, without blanks at its ends and of XML-legal characters, convert(unparse(<p eId=prefix__p_1>s</p>)) is that very element - stylesheet model, pre_parse, grammar, to_dict, XML builder, footnote resolution, normalisation, eId generation (C06_paragraph_round_trip; its instances are run on the implementation on every run); the same for the basic hierarchical element - keyword line with num and heading, blank line, indented paragraph - for each of the 34 keywords\' elements, every num without blank, dash or backslash, every such heading and text: whatever heading and text spell, the written text converts back to that very element (C06_section_round_trip, and C06_section_round_trip_no_heading for the element without a heading; instances on every run), and for a crossheading with any such text (C06_crossheading_round_trip; instances on every run). The string '
               'templates and all element templates are modelled in Gallina (Model/Unparse.v, Model/UnparseDoc.v) and tied to libxslt running the stylesheet by the xslstr and unp stages. That escaped text re-parses as the same '
               'text is decided by the oracles on the implementation: exhaustive strings of up to 3 atoms of the adversarial alphabet x 22 text positions, '
               'instances of the paragraph theorem, every keyword x 7 block positions x 6 continuations, random poisoning of generated documents, elements without syntax (no text dropped), '
